@@ -3,6 +3,7 @@ package main
 import (
 	"go/types"
 	"reflect"
+	"regexp"
 	"strconv"
 	"strings"
 
@@ -195,6 +196,51 @@ func installStr(c *Ctx) {
 	}
 	in["sort.Slice"] = sortSlice(false)
 	in["sort.SliceStable"] = sortSlice(true)
+	// regexp.MustCompile / Compile: an object that only remembers its pattern
+	mkRegexp := func(c *Ctx, a []Value, withErr bool) Value {
+		res := c.curCallee.Signature.Results().At(0).Type().(*types.Pointer)
+		st := res.Elem().Underlying().(*types.Struct)
+		sv := zero(res.Elem()).(*Struct)
+		for i := 0; i < st.NumFields(); i++ {
+			if st.Field(i).Name() == "expr" {
+				sv.f[i] = a[0]
+			}
+		}
+		var slot Value = sv
+		ptr := &Ptr{slot: &slot}
+		if withErr {
+			return Tuple{ptr, Iface{}}
+		}
+		return ptr
+	}
+	in["regexp.MustCompile"] = func(c *Ctx, a []Value) Value { return mkRegexp(c, a, false) }
+	in["regexp.Compile"] = func(c *Ctx, a []Value) Value { return mkRegexp(c, a, true) }
+	// regexp on concrete pattern and concrete text: run natively (the compiled
+	// program is not interpreted)
+	in["(*regexp.Regexp).MatchString"] = func(c *Ctx, a []Value) Value {
+		p, _ := a[0].(*Ptr)
+		txt, ok := a[1].(*Str).concrete()
+		if p == nil || !ok {
+			c.errf("regexp.MatchString on a nil pattern or symbolic text")
+		}
+		st, _ := c.curCallee.Signature.Recv().Type().(*types.Pointer).Elem().Underlying().(*types.Struct)
+		sv, _ := (*p.slot).(*Struct)
+		for i := 0; st != nil && sv != nil && i < st.NumFields(); i++ {
+			if st.Field(i).Name() == "expr" {
+				if es, ok := sv.f[i].(*Str); ok {
+					if pat, ok := es.concrete(); ok {
+						re, err := regexp.Compile(pat)
+						if err != nil {
+							c.errf("regexp: %v", err)
+						}
+						return Bool(re.MatchString(txt))
+					}
+				}
+			}
+		}
+		c.errf("regexp.MatchString: pattern not concrete")
+		return nil
+	}
 	// clock stub: the zero instant (no property looks at a time stamp taken by the code)
 	in["time.Now"] = func(c *Ctx, a []Value) Value { return zero(c.curCallee.Signature.Results().At(0).Type()) }
 	in["internal/stringslite.Clone"] = func(c *Ctx, a []Value) Value { return a[0] }
